@@ -11,6 +11,7 @@ for path in sorted(glob.glob("/verif/seeded/*/meta.json"), key=lambda p: (p.spli
     m = json.load(open(path))
     sid = os.path.basename(os.path.dirname(path))
     what = " ".join(m.get("needs", "").split())
+    what = "".join(ch if ch.isprintable() else "\\x%02x" % ord(ch) for ch in what)
     what = re.sub(r"^(File|Files|Change|change)s?: ?", "", what)
     rows.append((sid, "yes" if m.get("confirmed") else "NO", ", ".join(m.get("detected_by") or []) or "— (see text)", what[:150].replace("|", "/")))
 lines = ["| seed | confirmed (tests pass, demo fails) | detected by | change |", "|------|------|------|------|"]
@@ -24,7 +25,7 @@ if "--write" in sys.argv:
     if "SEED_TABLE" in s:
         s = s.replace("SEED_TABLE", "<!-- seed table begin -->\n" + table + "\n<!-- seed table end -->")
     else:
-        s = re.sub(r"<!-- seed table begin -->.*?<!-- seed table end -->", "<!-- seed table begin -->\n" + table + "\n<!-- seed table end -->", s, flags=re.S)
+        s = re.sub(r"<!-- seed table begin -->.*?<!-- seed table end -->", lambda _m: "<!-- seed table begin -->\n" + table + "\n<!-- seed table end -->", s, flags=re.S)
     open(p, "w").write(s)
 else:
     print(table)
